@@ -8,6 +8,12 @@ use crate::linalg::{
 /// algorithm.
 pub fn cholesky(a: &[f64]) -> Vec<f64> {
     assert!(is_symmetric(a));
+    try_cholesky(a).expect("matrix not positive definite")
+}
+
+/// Cholesky factor of a symmetric matrix, or `None` if a pivot is not positive (the matrix is
+/// not positive definite).
+pub(crate) fn try_cholesky(a: &[f64]) -> Option<Vec<f64>> {
     let n = is_square(a).unwrap();
 
     let mut l = vec![0.; n * n];
@@ -18,7 +24,9 @@ pub fn cholesky(a: &[f64]) -> Vec<f64> {
 
             if i == j {
                 let d = a[i * n + i] - s;
-                assert!(d > 0., "matrix not positive definite");
+                if !(d > 0.) {
+                    return None;
+                }
                 l[i * n + j] = d.sqrt();
             } else {
                 l[i * n + j] = (a[i * n + j] - s) / l[j * n + j];
@@ -26,7 +34,7 @@ pub fn cholesky(a: &[f64]) -> Vec<f64> {
         }
     }
 
-    l
+    Some(l)
 }
 
 /// Solves the system Lx=b, where L is a lower triangular matrix (e.g., a Cholesky decomposed
